@@ -36,7 +36,8 @@ def bounded_task():
 
 def build(tier, seed):
     set_tier(tier)
-    tasks = [a_task(PROP, _with_search(scoping.host_block)), bounded_task()]
+    tasks = [a_task(PROP, _with_search(scoping.host_block)), a_task(PROP, _with_search(scoping.submodule_block)),
+             Task(f"{PROP}.S.extension_order", PROP, "type extension order", lambda: scoping.extension_order(PROP)), bounded_task()]
     meta = {
         "trusted_base": TRUSTED_BASE,
         "assumptions": PYVC_ASSUMPTIONS + [
@@ -48,12 +49,14 @@ def build(tier, seed):
         ],
         "functions_under_contract": fn_meta([("ford.sourceform", "FortranCodeUnit.correlate",
                                               "block contract: statements from the first `self.all_procs...` up to `if isinstance(self, FortranSubmodule)`; "
-                                              "the rest of correlate() is not under contract")]),
-        "unverified_surroundings": ["the rest of FortranCodeUnit.correlate (submodule inheritance, USE merging: see C06, type ordering, call resolution)",
+                                              "the rest of correlate() is not under contract"),
+                                             ("ford.sourceform", "FortranCodeUnit.correlate", "second block contract: the first `if isinstance(self, FortranSubmodule):` statement")]),
+        "unverified_surroundings": ["the rest of FortranCodeUnit.correlate (USE merging: see C06; call resolution; the type ordering is a call-site obligation on toposort_flatten, whose contract is assumed)",
                                     "the resolvers FortranVariable.correlate / FortranBoundProcedure.correlate / FortranFinalProc.correlate / "
                                     "FortranInterface.correlate / FortranType.correlate (union-typed slots are outside Engine A's value model; "
                                     "covered only by the bounded pipeline cases)", "_find_chain_item"],
         "explanation": "The host-association block of correlate() is proved to build, for every heap, exactly host-overlaid-by-locals tables and to leave "
-                       "every table of the parent scope unchanged (aliasing is visible in the heap model).",
+                       "every table of the parent scope unchanged (aliasing is visible in the heap model). A submodule merges the tables of its parent submodule when it has one and "
+                       "of its ancestor module only otherwise, and is appended to the descendants of exactly that parent. Types are correlated in toposort order of their resolved parents.",
     }
     return tasks, meta
